@@ -64,16 +64,81 @@ C07_DISAGREEMENT = ("C07.Timeline", "C07.FailureReport")  # equality with the tr
 C07_INV = ["Aligned", "Consecutive", "FirstTickWindow", "SameForAllSeries", "CaughtUp", "TimerTracksWindow", "NeverEarly", "TypeOK"]
 C07_ACTIONS = ["CreateStep", "AddStep", "PassStep", "FireStep", "ResampleStep", "FinishStep", "BreakStep", "RecoverStep"]
 
+BERLIN = "Europe/Berlin"
+# align_to instants (seconds after the harness epoch 2024-01-01T00:00Z, Berlin winter time, UTC+1) that lie in Berlin
+# SUMMER time (UTC+2): 2024-07-01T00:00:03+02:00 (future) and 2023-07-01T00:00:04+02:00 (past)
+AL_SUMMER_FUTURE = 15717603
+AL_SUMMER_PAST = -15904796
+
+
+def _tzof(m: dict[int, str]):
+    from .tlc import Raw
+
+    return Raw("(" + " @@ ".join(f"{k} :> {json.dumps(v)}" for k, v in sorted(m.items())) + ")")
+
+
+# stage "timeline": the schedule space (lateness, slow sinks, series added / failing) on a 4 s period
+# stage "grid": where the grid comes from - align_to in other time zones (a 7 s period does not divide the hour a DST
+#               change shifts wall clocks by) and creation instants a few hundred microseconds after a grid point
 C07_SCOPES = {
     "quick": dict(
-        consts=dict(P=4, CreateSet=set(range(8, 12)), AlignSet={NONE, 1, 43}, NS=3, LatSet={0, 2, 9}, FailSet={2}, MaxFail=1, MaxLate=8, Horizon=16),
-        limit=4000,
+        timeline=dict(
+            consts=dict(P=4, CreateSet=set(range(8, 12)), OffSet={0}, AlignSet={NONE, 1, 43}, NS=3, LatSet={0, 2, 9}, FailSet={2}, MaxFail=1, MaxLate=8, Horizon=16),
+            tz={1: "+05:30", 43: "utc"},
+            limit=3600,
+        ),
+        grid=dict(
+            consts=dict(P=7, CreateSet={14, 17}, OffSet={0, 300, 999}, AlignSet={NONE, 0, AL_SUMMER_FUTURE, AL_SUMMER_PAST, 35}, NS=1, LatSet={0}, FailSet=set(), MaxFail=0, MaxLate=7, Horizon=22),
+            tz={0: "utc", AL_SUMMER_FUTURE: BERLIN, AL_SUMMER_PAST: BERLIN, 35: "-03:30"},
+            limit=1500,
+        ),
     ),
     "thorough": dict(
-        consts=dict(P=4, CreateSet=set(range(8, 12)), AlignSet={NONE, 0, 1, 43}, NS=3, LatSet={0, 1, 5, 12}, FailSet={2, 3}, MaxFail=1, MaxLate=8, Horizon=20),
-        limit=100000,
+        timeline=dict(
+            consts=dict(P=4, CreateSet=set(range(8, 12)), OffSet={0}, AlignSet={NONE, 0, 1, 43}, NS=3, LatSet={0, 1, 5, 12}, FailSet={2, 3}, MaxFail=1, MaxLate=8, Horizon=20),
+            tz={0: "utc", 1: "+05:30", 43: BERLIN},
+            limit=100000,
+        ),
+        grid=dict(
+            consts=dict(P=7, CreateSet=set(range(14, 21)), OffSet={0, 1, 300, 999, 500000}, AlignSet={NONE, 0, AL_SUMMER_FUTURE, AL_SUMMER_PAST, AL_SUMMER_FUTURE + 2, 35}, NS=2, LatSet={0, 8}, FailSet=set(), MaxFail=0, MaxLate=7, Horizon=29),
+            tz={0: "utc", AL_SUMMER_FUTURE: BERLIN, AL_SUMMER_PAST: BERLIN, AL_SUMMER_FUTURE + 2: "America/New_York", 35: "-03:30"},
+            limit=60000,
+        ),
     ),
 }
+C07_STAGE_ACTIONS = {
+    "timeline": ["CreateStep", "AddStep", "PassStep", "FireStep", "ResampleStep", "FinishStep", "BreakStep", "RecoverStep"],
+    "grid": ["CreateStep", "PassStep", "FireStep", "ResampleStep", "FinishStep"],
+}
+
+
+def _us(ts, epoch) -> int:
+    """Exact integer microseconds since the epoch (timedelta arithmetic, no floats)."""
+    x = (ts - epoch) // timedelta(microseconds=1)
+    return x if abs(x) < 2_000_000_000 and (ts - epoch) % timedelta(microseconds=1) == timedelta(0) else OFFGRID
+
+
+def _tzinfo(name: str):
+    from datetime import timezone
+    from zoneinfo import ZoneInfo
+
+    if name == "utc":
+        return timezone.utc
+    if name[0] in "+-":
+        hh, mm = name[1:].split(":")
+        d = timedelta(hours=int(hh), minutes=int(mm))
+        return timezone(d if name[0] == "+" else -d)
+    return ZoneInfo(name)
+
+
+def _run(loop) -> None:
+    """run_until_idle, treating a deadline within half a microsecond of the clock as due (float sums)."""
+    while True:
+        loop.run_until_idle()
+        d = loop.next_deadline()
+        if d is None or not 0 < d - loop.time() < 5e-7:
+            return
+        loop.set_time(d)
 
 
 def replay_timeline(case: dict, cfg: dict) -> dict:
@@ -97,7 +162,8 @@ def replay_timeline(case: dict, cfg: dict) -> dict:
     out = []
     c0 = steps[0]
     assert c0["a"] == "create"
-    with ManualLoop(start=float(c0["c"]) * TICK_S) as loop:
+    now_us = [c0["c"] * 1_000_000 + c0["off"]]  # the virtual clock, exact
+    with ManualLoop(start=now_us[0] / 1e6) as loop:
         res = None
         task = None
         chans: dict[int, object] = {}
@@ -108,7 +174,7 @@ def replay_timeline(case: dict, cfg: dict) -> dict:
                 if k in sink_raises:
                     raise RuntimeError(f"sink {k} refuses")
                 idx = joined[k] + len(rec[k])  # index of this tick in the global timeline
-                rec[k].append(_ticks(sample.timestamp, EPOCH))
+                rec[k].append(_us(sample.timestamp, EPOCH))
                 lat = lats[idx] if idx < len(lats) else 0
                 pending[0] += 1
                 try:
@@ -140,7 +206,7 @@ def replay_timeline(case: dict, cfg: dict) -> dict:
                     res.remove_timeseries(src)
             if task.done():
                 task = loop.create_task(res.resample())
-                loop.run_until_idle()
+                _run(loop)
 
         for i, s in enumerate(steps):
             a = s["a"]
@@ -148,25 +214,26 @@ def replay_timeline(case: dict, cfg: dict) -> dict:
                 kw = {}
                 if s["align"] == NONE:
                     kw["align_to"] = None
-                elif s["align"] != 0:  # 0: the default UNIX_EPOCH (EPOCH is a multiple of the period after it)
-                    kw["align_to"] = EPOCH + timedelta(seconds=s["align"] * TICK_S)
+                elif s["align"] != 0 or s["tz"] != "utc" or P != 4:  # else: the default UNIX_EPOCH (EPOCH is a multiple of 4 s after it)
+                    kw["align_to"] = (EPOCH + timedelta(seconds=s["align"] * TICK_S)).astimezone(_tzinfo(s["tz"]))
                 res = Resampler(ResamplerConfig(resampling_period=timedelta(seconds=P * TICK_S), **kw))
                 add(1)
                 task = loop.create_task(res.resample())
-                loop.run_until_idle()
+                _run(loop)
             elif a == "add":
                 add(s["s"])
             elif a == "pass":
-                loop.jump_to(loop.time() + TICK_S)  # the clock moves, the loop does not run
+                now_us[0] += 1_000_000
+                loop.jump_to(now_us[0] / 1e6)  # the clock moves, the loop does not run
             elif a in ("fire", "resample", "finish"):
-                loop.run_until_idle()
+                _run(loop)
             elif a == "stop":
                 # the source ends: close the channel and let the receiving task notice (the spec only
                 # takes this step when nothing is overdue, so running the loop does nothing else)
                 broke_at[s["s"]] = len(rec[1])
                 ch_ = chans[s["s"]]
                 loop.create_task(getattr(ch_, "aclose", ch_.close)())
-                loop.run_until_idle()
+                _run(loop)
             elif a == "sinkfail":
                 broke_at[s["s"]] = len(rec[1])
                 sink_raises.add(s["s"])
@@ -221,63 +288,92 @@ def _printable(consts: dict) -> dict:
     return {k: (sorted(x) if isinstance(x, (set, frozenset)) else x) for k, x in consts.items()}
 
 
-def run_c07(rep: Report, tier: str, work: Path) -> None:
+def _c07_stage(rep: Report, name: str, sc: dict, work: Path) -> None:
     global _CFG
-    sc = C07_SCOPES[tier]
-    consts = sc["consts"]
-    d = work / "timeline"
+    from datetime import timezone
+
+    from .vloop import EPOCH
+
+    base = sc["consts"]
+    consts = dict(base, TzOf=_tzof(sc["tz"]))
+    shown = dict(_printable(base), TzOf=sc["tz"])
+    P = base["P"]
+    d = work / name
     d.mkdir(parents=True, exist_ok=True)
     cases_file = d / "cases.ndjson"
     res = run_tlc("ResamplerTimeline", d, constants=consts, view="View", invariants=C07_INV, env={"OUT_FILE": str(cases_file)}, coverage=True, timeout=3000)
-    rep.add_mc("timeline", res, _printable(consts), C07_INV, mode="exhaustive")
+    rep.add_mc(name, res, shown, C07_INV, mode="exhaustive")
     if not res.ok:
-        rep.fail(f"C07.MC.{'/'.join(res.violated)}", dict(stage="timeline", constants=str(consts)), res.counterexample[:3000])
+        rep.fail(f"C07.MC.{'/'.join(res.violated)}", dict(stage=name, constants=str(shown)), res.counterexample[:3000])
         return
-    for a in C07_ACTIONS:
+    for a in C07_STAGE_ACTIONS[name]:
         if not res.coverage.get(a):
-            raise RuntimeError(f"vacuity: action {a} never taken ({res.coverage})")
+            raise RuntimeError(f"vacuity: action {a} never taken in stage {name} ({res.coverage})")
     cases, total, cut = _load_case_lines(cases_file, sc["limit"])
     if cut:
         rep.exhaustive = False
     # non-vacuity of the interesting regimes (counted on the behaviours TLC generated)
-    ex = dict(late_timer=0, late_by_a_period_or_more=0, catch_up_burst=0, slow_sink_over_a_period=0, series_added_while_running=0, series_added_while_sinks_pending=0, source_stopped=0, sink_raised=0, failing_series_recovered=0, ticks_after_recovery=0, unaligned_creation=0, align_future=0, align_none=0, ticks_total=0)
+    if name == "timeline":
+        keys = ("late_timer", "late_by_a_period_or_more", "catch_up_burst", "slow_sink_over_a_period", "series_added_while_running",
+                "series_added_while_sinks_pending", "source_stopped", "sink_raised", "failing_series_recovered", "ticks_after_recovery",
+                "unaligned_creation", "align_future", "align_none", "ticks_total")
+    else:
+        keys = ("align_to_in_dst_zone_with_other_utc_offset_than_at_creation", "align_to_with_fixed_nonzero_offset", "align_to_utc", "align_none",
+                "created_under_1ms_after_grid_point", "created_exactly_on_grid_point", "unaligned_creation", "align_future", "late_timer", "ticks_total")
+    ex = dict.fromkeys(keys, 0)
+
+    def offset_differs(al: int, tz: str, c0: int) -> bool:
+        z = _tzinfo(tz)
+        at_align = (EPOCH + timedelta(seconds=al)).astimezone(z).utcoffset()
+        at_creation = (EPOCH + timedelta(seconds=c0)).astimezone(z).utcoffset()
+        return at_align != at_creation
+
     for _, line in cases:
         st = _parse_line(line)
         fires = [s for s in st if s["a"] == "fire"]
-        ex["late_timer"] += any(s["drift"] > 0 for s in fires)
-        ex["late_by_a_period_or_more"] += any(s["drift"] >= consts["P"] for s in fires)
-        ex["catch_up_burst"] += any(s["catchup"] for s in fires)
-        ex["slow_sink_over_a_period"] += any(s["a"] == "resample" and s["lat"] > consts["P"] for s in st)
-        seen_tick = False
-        for s in st:
-            if s["a"] == "resample":
-                seen_tick = True
-                ex["ticks_total"] += 1
-            if s["a"] == "add" and seen_tick:
-                ex["series_added_while_running"] += 1
-                break
-        ex["series_added_while_sinks_pending"] += any(s["a"] == "finish" and s["grown"] for s in st)
-        ex["source_stopped"] += any(s["a"] == "stop" for s in st)
-        ex["sink_raised"] += any(s["a"] == "sinkfail" for s in st)
-        rec_at = [i for i, s in enumerate(st) if s["a"] == "recover"]
-        ex["failing_series_recovered"] += bool(rec_at)
-        ex["ticks_after_recovery"] += bool(rec_at) and any(s["a"] == "resample" for s in st[rec_at[0]:])
-        al, c0 = st[0]["align"], st[0]["c"]
+        al, c0, off, tz = st[0]["align"], st[0]["c"], st[0]["off"], st[0]["tz"]
+        nticks = sum(s["a"] == "resample" for s in st)
+        ex["ticks_total"] += nticks
+        ex["late_timer"] += any(s["drift"] >= 1_000_000 for s in fires)
         ex["align_none"] += al == NONE
         ex["align_future"] += al != NONE and al > c0
-        ex["unaligned_creation"] += al != NONE and (c0 - al) % consts["P"] != 0
+        ex["unaligned_creation"] += al != NONE and ((c0 - al) % P != 0 or off != 0)
+        if name == "timeline":
+            ex["late_by_a_period_or_more"] += any(s["drift"] >= P * 1_000_000 for s in fires)
+            ex["catch_up_burst"] += any(s["catchup"] for s in fires)
+            ex["slow_sink_over_a_period"] += any(s["a"] == "resample" and s["lat"] > P for s in st)
+            seen_tick = False
+            for s in st:
+                seen_tick = seen_tick or s["a"] == "resample"
+                if s["a"] == "add" and seen_tick:
+                    ex["series_added_while_running"] += 1
+                    break
+            ex["series_added_while_sinks_pending"] += any(s["a"] == "finish" and s["grown"] for s in st)
+            ex["source_stopped"] += any(s["a"] == "stop" for s in st)
+            ex["sink_raised"] += any(s["a"] == "sinkfail" for s in st)
+            rec_at = [i for i, s in enumerate(st) if s["a"] == "recover"]
+            ex["failing_series_recovered"] += bool(rec_at)
+            ex["ticks_after_recovery"] += bool(rec_at) and any(s["a"] == "resample" for s in st[rec_at[0] :])
+        else:
+            # only behaviours in which at least one tick was handed out say anything about the grid
+            has = nticks > 0
+            ex["align_to_in_dst_zone_with_other_utc_offset_than_at_creation"] += has and al != NONE and tz not in ("utc",) and tz[0] not in "+-" and offset_differs(al, tz, c0)
+            ex["align_to_with_fixed_nonzero_offset"] += has and al != NONE and tz[0] in "+-"
+            ex["align_to_utc"] += has and al != NONE and tz == "utc"
+            ex["created_under_1ms_after_grid_point"] += has and al != NONE and (c0 - al) % P == 0 and 0 < off < 1000
+            ex["created_exactly_on_grid_point"] += has and al != NONE and (c0 - al) % P == 0 and off == 0
     for k, v in ex.items():
         if not v:
-            raise RuntimeError(f"vacuity: no replayed behaviour exercises {k}")
-    _CFG = dict(consts, prop="C07")
+            raise RuntimeError(f"vacuity: no replayed behaviour of stage {name} exercises {k}")
+    _CFG = dict(base, prop="C07")
     t1 = Timer()
     shards = _replay_batched(cases, d)
     run_s = t1.s()
     t2 = Timer()
     fails, done, st = validate_shards("ResamplerTimelineTrace", shards, d, constants=consts)
     rep.validated += done
-    rep.extra["stages"] = [dict(stage="timeline", cases_emitted=total, cases_replayed=len(cases), traces_validated=done, val_states=st["states"], mc_s=res.wall_s, run_s=run_s, val_s=t2.s())]
-    rep.extra["behaviours_exercising"] = ex
+    rep.extra.setdefault("stages", []).append(dict(stage=name, cases_emitted=total, cases_replayed=len(cases), traces_validated=done, val_states=st["states"], mc_s=res.wall_s, run_s=run_s, val_s=t2.s()))
+    rep.extra.setdefault("behaviours_exercising", {})[name] = ex
     if shards:
         rep.samples.append(load_ndjson(shards[0])[0])
     byid = _byid(shards) if fails else {}
@@ -285,10 +381,16 @@ def run_c07(rep: Report, tier: str, work: Path) -> None:
         if v["clause"] in C07_DISAGREEMENT:
             dis = rep.extra.setdefault("disagreements", [])
             if len(dis) < 20:
-                dis.append(dict(trace=v["tid"], step=v["l"], detail=v["detail"]))
+                dis.append(dict(stage=name, trace=v["tid"], step=v["l"], detail=v["detail"]))
             rep.extra["disagreements_total"] = rep.extra.get("disagreements_total", 0) + 1
         elif v["clause"].startswith("C07."):
-            rep.fail(v["clause"], dict(stage="timeline", constants=_printable(consts), trace=byid.get(v["tid"]), step=v["l"]), v["detail"], deviations=v.get("deviations", []))
+            rep.fail(v["clause"], dict(stage=name, constants=shown, trace=byid.get(v["tid"]), step=v["l"]), v["detail"], deviations=v.get("deviations", []))
+
+
+def run_c07(rep: Report, tier: str, work: Path) -> None:
+    sc = C07_SCOPES[tier]
+    _c07_stage(rep, "grid", sc["grid"], work)
+    _c07_stage(rep, "timeline", sc["timeline"], work)
 
 
 # ===========================================================================
@@ -513,7 +615,8 @@ def run(prop: str, tier: str) -> int:
     SHARDS = 8 if tier == "quick" else 16
     if prop == "C07":
         rep.assumptions = [
-            "time on a grid of quarter periods (1 tick = 1 s, period 4 s): sub-tick jitter and float rounding of the loop clock are not decided",
+            "schedules on a grid of whole seconds (period 4 s, and 7 s for the grid stage); creation instants additionally 1..999 us (and 0.5 s) after a tick; instants are exact integer microseconds; other sub-tick jitter is not decided",
+            "align_to in UTC, fixed-offset and DST zones (zoneinfo); the expected grid is computed from the absolute instant of align_to",
             "lateness is modelled as whole ticks during which the event loop does not run; when it runs it runs until nothing is ready",
             "sources never yield and never end; sinks never raise; remove_timeseries is not exercised",
             "the harness reads no private state: timestamps are those handed to the sinks given to add_timeseries",
